@@ -92,6 +92,30 @@ class NP:
         a.store_dtype = getattr(dtype, "name", None)
         return a
 
+    def broadcast_shapes(self, *shapes):
+        """np.broadcast_shapes: axis by axis (right-aligned) the sizes must be equal or 1; ValueError otherwise.  Sizes may
+        be symbolic: each comparison is a decision of the current run."""
+        shp = [tuple(s_) if isinstance(s_, (tuple, list)) else (s_,) for s_ in shapes]
+        nd = max([len(s_) for s_ in shp] or [0])
+        out = []
+        for ax in range(nd):
+            cur = Num(1)
+            for s_ in shp:
+                j = len(s_) - nd + ax
+                if j < 0:
+                    continue
+                d = num(s_[j])
+                if bool(d == cur):
+                    continue
+                if bool(cur == 1):
+                    cur = d
+                elif bool(d == 1):
+                    pass
+                else:
+                    raise ValueError("shape mismatch: objects cannot be broadcast to a single shape")
+            out.append(cur if not cur.concrete else int(cur.t))
+        return tuple(out)
+
     def result_type(self, *args):
         # kind-level promotion (bool < int < float < complex); the storage width is not modelled (A1)
         order = ["bool", "int", "float", "complex"]
